@@ -215,8 +215,10 @@ for _d in (0, 1):
         features=("alloc",), domain="fully symbolic record x identification report", functions=TRK_FN, timeout=900)
     add("trk_vel_" + _n, "rsadsb_common", T + "obl_action_velocity", args=_b, props=["C12", "C14", "C01"], stubs=["fmt", ENTRY, CALC], unwind=6,
         features=("alloc",), domain="fully symbolic record x velocity report with arbitrary derived velocity", functions=TRK_FN, timeout=900)
-    add("trk_other_" + _n, "rsadsb_common", T + "obl_action_other_me", args=_b, props=["C12", "C01"], stubs=["fmt", ENTRY], unwind=8,
-        features=("alloc",), domain="fully symbolic record x other payload types", functions=TRK_FN, timeout=900)
+    for _w in (0, 1, 2):
+        add("trk_other%d_%s" % (_w, _n), "rsadsb_common", T + "obl_action_other_me", args=_b + ", %d" % _w, props=["C12", "C01"] + (["C15"] if (_w == 0) else []), stubs=["fmt", ENTRY], unwind=8,
+            features=("alloc",), domain="fully symbolic record x payload type kind %d (type 0 / 30 / 24) with symbolic contents" % _w, functions=TRK_FN, timeout=900,
+            tier="quick" if _w < 2 else "thorough")
 for _w, _wn in ((0, "df11"), (1, "df19"), (2, "df24"), (3, "df05")):
     add("trk_non_es_" + _wn, "rsadsb_common", T + "obl_action_non_es", args="%d" % _w, props=["C12", "C01"], stubs=["fmt", ENTRY], unwind=6, features=("alloc",),
         domain="%s frames with symbolic contents" % _wn.upper(), functions=["Airplanes::action"], timeout=600)
@@ -229,8 +231,6 @@ for _mask, _pm in ((0, 0), (7, 0), (7, 7), (7, 5), (7, 2), (5, 4), (2, 2), (3, 1
 add("trk_c15_native", "rsadsb_common", T + "obl_c15_native", props=["C15"], stubs=[], tier="native-bounded", features=("std",),
     bounded="real clock and real map, concrete cases: last-heard refresh (incr_messages, action), expiry boundary (0.5 s kept / 1.5 s removed / clock backwards removed, T = 1) at six phases of the wall-clock second, T = 0, re-appearance after expiry",
     domain="native concrete cases", functions=["Airplanes::prune", "Airplanes::incr_messages", "Airplanes::action"])
-add("trk_incr_count", "rsadsb_common", T + "obl_action_other_me", args="false", props=["C15", "C12"], stubs=["fmt", ENTRY], unwind=8,
-    features=("alloc",), domain="fully symbolic record: every DF17 frame is counted exactly once (the counted frames are the ones that refresh last-heard)", functions=TRK_FN, timeout=900)
 
 add("frame_any_native", "adsb_deku", F + "obl_frame_any", props=["native-oracle"], stubs=[], tier="native",
     domain="native oracle: any buffer of 0..=32 bytes", functions=["Frame::from_bytes"])
